@@ -56,6 +56,20 @@ def str_slice(o, lo, hi, st):
         return simplify(Tmpl(o.parts[:hi.part] + ([o.parts[hi.part][:hi.off]] if hi.off else [])))
     if isinstance(o, Tmpl) and st is None and hi is None and isinstance(lo, PosMark):
         return simplify(Tmpl([o.parts[lo.part][lo.off:]] + o.parts[lo.part + 1:]))
+    if isinstance(o, Tmpl) and st is None:
+        # integer positions that fall inside the leading literal text
+        first = o.parts[0] if o.parts and isinstance(o.parts[0], str) else ""
+        if isinstance(lo, int) and hi is None and 0 <= lo <= len(first):
+            return simplify(Tmpl([first[lo:]] + o.parts[(1 if first else 0):]))
+        if (lo is None or lo == 0) and isinstance(hi, int) and 0 <= hi <= len(first):
+            return first[:hi]
+        if isinstance(lo, int) and isinstance(hi, int) and 0 <= lo <= hi <= len(first):
+            return first[lo:hi]
+        if isinstance(lo, int) and hi is None and first and lo > len(first) and len(o.parts) >= 2 and isinstance(o.parts[1], Sym):
+            # the cut falls inside the symbol that follows the literal text: an (unknown) tail of that symbol
+            k = lo - len(first)
+            tail = Sym("tail(%s,%d)" % (o.parts[1].tag, k), prov=("derived", "tail", o.parts[1]), wild=o.parts[1].wild)
+            return simplify(Tmpl([tail] + o.parts[2:]))
     raise Unsupported("slice [%r:%r] of symbolic string %r" % (lo, hi, o))
 
 
@@ -162,6 +176,13 @@ def str_method(it, o, a, args, kw):
                 return first.startswith(pre)
             if not pre.startswith(first):
                 return False
+            rest = pre[len(first):]
+            if len(t.parts) < 2:
+                return False
+            nxt = t.parts[1]
+            if isinstance(nxt, Sym):
+                return nxt.pred("startswith %r" % rest) if not _excluded(nxt, rest) else False
+            raise Unsupported("startswith on %r" % (o,))
         if isinstance(first, Sym):
             return first.pred("startswith %r" % pre) if not _excluded(first, pre) else False
         raise Unsupported("startswith on %r" % (o,))
@@ -197,8 +218,15 @@ def str_method(it, o, a, args, kw):
                 if not isinstance(new, str) and old in p:
                     raise Unsupported("replace with symbolic text")
             else:
-                if isinstance(p, Sym) and p.wild and p.pred("contains %r" % old):
-                    parts.append(Sym("replace(%s,%r,%r)" % (p.tag, old, new), prov=("derived", "replace", p), wild=True))
+                if isinstance(p, Sym) and p.wild:
+                    # free text: remember which substrings have been rewritten (escaping), whether or not they occur
+                    n = Sym("replace(%s,%r,%r)" % (p.tag, old, new), prov=("derived", "replace", p), wild=True)
+                    n.escapes = tuple(getattr(p, "escapes", ())) + ((old, new),)
+                    for k, v in p.preds.items():
+                        if k.startswith("contains") and k != "contains %r" % old:
+                            n.preds[k] = v
+                    n.derived_from = Tmpl([p])
+                    parts.append(n)
                 else:
                     parts.append(p)
         return simplify(Tmpl(parts))
@@ -247,11 +275,21 @@ class LowerOf:
 
 def derived(fn, x):
     t = as_tmpl(x)
+    cache = World.trace.setdefault("derived", {}) if World.trace is not None else {}
+    ck = (fn, skey(t))
+    if ck in cache:
+        return cache[ck]
+    s = _derived(fn, t)
+    cache[ck] = s
+    return s
+
+
+def _derived(fn, t):
     inner = "".join(p if isinstance(p, str) else getattr(p, "tag", "?") for p in t.parts)
     s = Sym("%s(%s)" % (fn, inner), prov=("derived", fn, t), wild=any(isinstance(p, Sym) and p.wild for p in t.parts))
     s.derived_from = t
     if not s.wild:
-        for k in ("isdigit", "isint", "== 'true'", "== 'false'", "== 'None'"):
+        for k in ("isdigit", "isint", "== 'true'", "== 'false'", "== 'None'", "vocab"):
             s.preds[k] = False
     return s
 
@@ -719,7 +757,20 @@ class PathObj:
     """pathlib.Path over (possibly symbolic) posix path text."""
 
     def __init__(self, s):
-        self.s = simplify(s)
+        s = simplify(s.s if isinstance(s, PathObj) else s)
+        # pathlib normalisation: no trailing slash, no empty or '.' components
+        if isinstance(s, str):
+            if s not in ("", "/"):
+                lead = "/" if s.startswith("/") else ""
+                s = lead + "/".join(c for c in s.split("/") if c not in ("", ".")) or "."
+            elif s == "":
+                s = "."
+        else:
+            comps = split_tmpl(s, "/")
+            lead = "/" if comps and comps[0] == "" else ""
+            comps = [c for c in comps if not (isinstance(c, str) and c in ("", "."))]
+            s = concat(lead, _join(comps)) if lead else _join(comps)
+        self.s = s
 
     def abs_getattr(self, it, a):
         if a == "as_posix":
@@ -936,6 +987,7 @@ def stdlib_html(it):
             elif isinstance(p, Sym) and p.wild:
                 n = Sym("escape(%s)" % p.tag, prov=("derived", "html.escape", p), wild=True)
                 n.escaped = ("html", quote)
+                n.escapes = tuple(getattr(p, "escapes", ()))
                 n.derived_from = Tmpl([p])
                 for k, v in p.preds.items():
                     if k.startswith("contains") and not any(c in k for c in "<>&"):
